@@ -351,6 +351,13 @@ where
                     info_hashes.push(info_hash);
                 }
 
+                // Nothing to ask swarm workers for (max_scrape_torrents is zero)
+                if info_hashes_by_worker.is_empty() {
+                    return Ok(Response::Scrape(ScrapeResponse {
+                        files: Default::default(),
+                    }));
+                }
+
                 let pending_worker_responses = info_hashes_by_worker.len();
                 let mut response_receivers = Vec::with_capacity(pending_worker_responses);
 
